@@ -307,6 +307,25 @@ def run_case(desc):
                     n_extra += 1
                     if v is not None:
                         return v
+            if desc['extra'] == 'loop-link':
+                # the real program (entry point in a process of its own):
+                # the exit status tells the user about the I/O error
+                import subprocess
+                import sys
+                code = ('import sys; sys.path.insert(0, sys.argv[1]); '
+                        'from gemato.cli import setuptools_main; '
+                        'sys.argv = ["gemato", "verify", sys.argv[2]]; '
+                        'setuptools_main()')
+                p = subprocess.run([sys.executable, '-c', code, harness.REPO,
+                                    root], capture_output=True, text=True)
+                n_extra += 1
+                classes.append('entry-point-process')
+                if p.returncode == 0:
+                    return violation(
+                        f'the gemato entry point run as a process exited 0 '
+                        f'on a tree with an object that cannot be inspected '
+                        f'(ELOOP); stderr: {p.stderr[-300:]!r}',
+                        sig='process-exit-0-despite-error', classes=classes)
             r = ok(nontrivial=True, classes=classes)
             r.subcases = n_extra
             r.subcases_nontrivial = n_extra
